@@ -43,6 +43,10 @@ class Rec2:
         except Exception as ex: e['raised'] = type(ex).__name__
         e['bitcnt'] = self.bitcnt()
         self.ev.append(e); return e
+    def preset(self, nbytes):
+        """as if nbytes (a multiple of the block size) had been hashed before: the public counter of the pad object is assigned"""
+        self.o.padmethod.bitcnt = 8 * nbytes
+        e = dict(op='preset', base=limbs(nbytes, 8 if self.b else 4)); self.ev.append(e); return e
     def trace(self, scen=None): return dict(b=self.b, par0=par(self.b), ev=self.ev, scen=scen)
 
 def classify(ctx, tr, recs):
